@@ -512,6 +512,9 @@ def r20_18(ctx):
 
 
 def run(ctx):
+    from .sweep import r20_19 as _r20_19, r20_20 as _r20_20
+    _r20_19(ctx)
+    _r20_20(ctx)
     r20_17(ctx)
     r20_18(ctx)
     r20_15(ctx)
